@@ -51,7 +51,7 @@ LIM_INSTANCES = {
     "sub4L": ["Allow:sub1", "Allow:sub2", "Allow:glob", "forgot", "Tick"],       # thorough tier only
 }
 THOROUGH_ONLY = ("sub4L", "jointM", "jointL")
-CONN_INSTANCES = {"c4": 3, "c6": 3, "joint": 2, "jointM": 2, "jointL": 3}  # MaxLive; jointM: thorough; jointL: thorough, exhaustive only
+CONN_INSTANCES = {"c4": 3, "c6": 3, "joint": 2, "jointM": 2, "jointL": 2}  # MaxLive; jointM: thorough; jointL: thorough, exhaustive only
 # quick tier: share of a big printed graph that is replayed (seeded covering sample); thorough replays every transition
 QUICK_SAMPLE = {"joint": 25000, "c6": 15000}
 CONN_KINDS = {"c4": ["Open:conn", "Open:conn@2", "zero-entry", "Done", "Bogus"], "c6": ["Open:conn", "Open:conn@2"],
@@ -226,7 +226,7 @@ def run_part(ctx, thorough):
     if not res["mismatches"] and res["steps"] != want:
         raise MachineryError("x/rate replay executed %d steps for %d in the walks" % (res["steps"], want))
     mark("replay")
-    seqs, rounds = (150, 60) if thorough else (30, 40)
+    seqs, rounds = (100, 50) if thorough else (30, 40)
     conc_h = _harness(ctx, PKG_RATE, "^TestVerifC03rateConc$", inputs=beh, timeout=1500, race=True,
                                env={"VERIF_C03RATE_CONC_SEQS": seqs, "VERIF_C03RATE_CONC_ROUNDS": rounds})
     div += classify_mismatches(ctx, conc_h, "conc")
